@@ -1,6 +1,12 @@
 //go:build verif
 
 // C04 contracts that rely on the C01 helper's contracts for pkg/utils/resources (Subtract, MergeInto).
+// Status with drafts/C01 overlaid: Available: all obligations discharge. PodRequests: everything discharges except
+//   PodRequests#loop1.step.frame.MapDom/MapVal[ResourceList]: the first MergeInto call has dest == nil and C01's
+//   `modifies dest[:]` then havocs "the contents of the nil map", which the frame check of `modifies nothing` counts as
+//   a pre-existing location. Needed: `modifies m[:]` with m == nil is a no-op (or the frame check ignores nil).
+// Not expressible yet: the VALUE of PodRequests (sum over all entries of the map in.podRequests) - needs a fold over
+//   a map range (rec functions only recurse over indices), so Available is stated relative to the two calls it makes.
 package state
 
 // ---- (3) Available = Allocatable - everything requested by the pods bound to the node ----
